@@ -8,7 +8,7 @@ for id in $IDS; do
   PROPS=$P
   # seeds documented as caught by another property's check
   case $id in C06-B) PROPS="C12";; C15-E) PROPS="C15 C14";; C18-D) PROPS="C18";; esac
-  tools/try_seed.sh seeded/$id - quick $PROPS > $OUT/$id.log 2>&1
+  tools/try_seed.sh /verif/seeded/$id - quick $PROPS > $OUT/$id.log 2>&1
   applies=$(grep -c "patch does not apply" $OUT/$id.log)
   clean=$(grep -c "demo on clean tree: PASS" $OUT/$id.log)
   suite=$(grep -c "suite with change: PASS" $OUT/$id.log)
